@@ -111,7 +111,10 @@ def mutate_value(rng, v, u):
 
 def same_fields(u, c, d):
     a, b = u.merged(c), u.merged(d)
-    return [(f.name, f.role, f.compare) for f in a] == [(f.name, f.role, f.compare) for f in b]
+    # non-init fields always hold their class's default: the edited node could not carry the original value
+    return [(f.name, f.role, f.compare) for f in a] == [(f.name, f.role, f.compare) for f in b] \
+        and all(f.init for f in a) and all(f.init for f in b) \
+        and [f.ptype for f in a] == [f.ptype for f in b]
 
 
 def edit(rng, u, t):
